@@ -14,7 +14,7 @@ COUNT_OBS_AS_EVALUATIONS = True
 RULE = ("complete enumeration of (n_states 1..260, max_batch_size in {1..70,127,128,129,1024}, "
         "devices 1..8): arithmetic contract on every triple; layout (states in order then padding "
         "only) and unbatch round trip with trailing shapes (), (3,), (2,2) on every triple in the "
-        "systematic subsample (thorough: 1-in-2 plus every corner triple; quick: 1-in-40 plus 1-in-12 "
+        "systematic subsample (thorough: 1-in-2 plus every corner triple; quick: 1-in-60 plus 1-in-16 "
         "of the corner triples; corner = n<devices, n_pad==0 on >1 device, max_batch_size 1, prime n). evaluations = triples; "
         "distinct_nontrivial = triples with padding, more than one batch or more than one device. "
         "pmap_device_count=None is checked against len(jax.devices()) under 1 and 4 emulated devices.")
@@ -35,8 +35,8 @@ def gen_cases(seed, tier):
     step = 8
     for lo in range(1, 261, step):
         cases.append(dict(kind="box", n_lo=lo, n_hi=min(lo + step - 1, 260),
-                          stride=2 if tier == "thorough" else 40, cstride=1 if tier == "thorough" else 12,
-                          offset=int(seed) % 40, devices=1))
+                          stride=2 if tier == "thorough" else 60, cstride=1 if tier == "thorough" else 16,
+                          offset=int(seed) % 60, devices=1))
     # a sparse sample far outside the box (large state counts / batch sizes): arithmetic on all, layout on the smaller ones
     cases.append(dict(kind="large", devices=1))
     cases.append(dict(kind="devcount", devices=1))
@@ -155,6 +155,17 @@ def run_case(case):
                     if out.shape != exp.shape or not np.array_equal(out, exp):
                         return dict(status="violation", kind="roundtrip",
                                     detail=f"n={n} mb={mb} d={d} trail={trail}: unbatch is not the identity on the first n rows")
+                    if trail in ((), (3,)):
+                        # integer (policy indices) and boolean results take the same route
+                        for dt in (np.int32, np.bool_):
+                            srci = (np.arange(tot * width).reshape((D, B, bs) + trail) % 7 if dt is np.int32
+                                    else (np.arange(tot * width).reshape((D, B, bs) + trail) % 3 == 0)).astype(dt)
+                            outi = np.asarray(bp.unbatch_results(jnp.asarray(srci)))
+                            expi = srci.reshape((tot,) + trail)[:n]
+                            if outi.dtype != expi.dtype or outi.shape != expi.shape or not np.array_equal(outi, expi):
+                                return dict(status="violation", kind="roundtrip",
+                                            detail=f"n={n} mb={mb} d={d} trail={trail} dtype={np.dtype(dt).name}: unbatch changed dtype/rows "
+                                                   f"({outi.dtype}, {outi.shape})")
                 n_layout += 1
     n_inv = contracts.COUNTS.get("BatchProcessor.invariant", 0) - ev0
     if n_inv == 0:
